@@ -176,10 +176,10 @@ func ValidateRedirect(sigAlg string, elementToSign []byte, signature []byte, pub
 		return verifyDSA(signature, sum, pubKey)
 	case "http://www.w3.org/2000/09/xmldsig#rsa-sha1":
 		sum := sha1Sum(elementToSign)
-		return rsa.VerifyPKCS1v15(pubKey.(*rsa.PublicKey), crypto.SHA1, sum, signature)
+		return verifyRSA(crypto.SHA1, signature, sum, pubKey)
 	case "http://www.w3.org/2001/04/xmldsig-more#rsa-sha256":
 		sum := sha256Sum(elementToSign)
-		return rsa.VerifyPKCS1v15(pubKey.(*rsa.PublicKey), crypto.SHA256, sum, signature)
+		return verifyRSA(crypto.SHA256, signature, sum, pubKey)
 	default:
 		return fmt.Errorf("unsupported signature algorithm, %s", sigAlg)
 	}
@@ -189,7 +189,19 @@ type dsaSignature struct {
 	R, S *big.Int
 }
 
+func verifyRSA(hash crypto.Hash, signature, sum []byte, pubKey interface{}) error {
+	rsaKey, ok := pubKey.(*rsa.PublicKey)
+	if !ok {
+		return fmt.Errorf("signature algorithm requires an RSA key, registered key is %T", pubKey)
+	}
+	return rsa.VerifyPKCS1v15(rsaKey, hash, sum, signature)
+}
+
 func verifyDSA(signature, sum []byte, pubKey interface{}) error {
+	dsaKey, ok := pubKey.(*dsa.PublicKey)
+	if !ok {
+		return fmt.Errorf("signature algorithm requires a DSA key, registered key is %T", pubKey)
+	}
 	dsaSig := new(dsaSignature)
 	if rest, err := asn1.Unmarshal(signature, dsaSig); err != nil {
 		return err
@@ -199,7 +211,7 @@ func verifyDSA(signature, sum []byte, pubKey interface{}) error {
 	if dsaSig.R.Sign() <= 0 || dsaSig.S.Sign() <= 0 {
 		return fmt.Errorf("DSA signature contained zero or negative values")
 	}
-	if !dsa.Verify(pubKey.(*dsa.PublicKey), sum, dsaSig.R, dsaSig.S) {
+	if !dsa.Verify(dsaKey, sum, dsaSig.R, dsaSig.S) {
 		return fmt.Errorf("DSA verification failure")
 	}
 	return nil
